@@ -196,7 +196,8 @@ def h_coo_sizes(ex, n_wide, kind):
 def cases(tier):
     cs = []
     if tier == "quick":
-        grid = [(4, 2, 5, 2), (5, 2, 6, 2), (6, 3, 6, 2), (8, 3, 6, 3), (8, 4, 6, 2), (5, 3, 5, 3), (7, 2, 6, 2)]
+        grid = [(4, 2, 5, 2), (5, 2, 6, 2), (6, 3, 6, 2), (8, 3, 6, 3), (8, 4, 6, 2), (5, 3, 5, 3), (7, 2, 6, 2),
+                (4, 2, 6, 3)]       # as many distinct keys as slots: the buffer stays full after a flush and must grow
     else:
         grid = [(c, l, k, nk) for c in (4, 5, 6, 7, 8, 10, 12) for l in (2, 3, 4) for k, nk in ((7, 2), (8, 3))]
     for cap, limit, K, nkeys in grid:
